@@ -501,3 +501,66 @@ func uniformPosition(w *World, lf *LexFacts, r *Result) bool {
 	r.Ok(rule, "pos:newline-token", cpos, "line breaks advance the row through the same function as every other token")
 	return true
 }
+
+// DelimiterSearchRule: where the lexer recognises a delimited token by hand (the text starts
+// with an opener, the terminator is searched with strings.Index / Contains / Cut), the
+// search must start behind the opener whenever the end of the opener can be the beginning of
+// the terminator ("/*" and "*/" share the star): otherwise "/*/" is taken for a complete
+// comment and what follows is code that the programmer commented out.
+func DelimiterSearchRule(w *World, r *Result, rule string) {
+	overlap := func(open, cl string) bool {
+		for k := 1; k < len(open) && k <= len(cl); k++ {
+			if open[len(open)-k:] == cl[:k] {
+				return true
+			}
+		}
+		return false
+	}
+	n := 0
+	for _, fn := range w.Funcs("lexer") {
+		for _, b := range fn.Blocks {
+			for _, ins := range b.Instrs {
+				c, ok := ins.(*ssa.Call)
+				if !ok {
+					continue
+				}
+				name := calleeName(c)
+				if name != "strings.Index" && name != "strings.Contains" && name != "strings.Cut" {
+					continue
+				}
+				kc, ok := c.Call.Args[1].(*ssa.Const)
+				if !ok || kc.Value == nil || kc.Value.Kind() != constant.String {
+					continue
+				}
+				closer := constant.StringVal(kc.Value)
+				hay := c.Call.Args[0]
+				// an opener test on the same text that this search is reached under (or alongside:
+				// HasPrefix(x, o) && Contains(x, c))
+				for _, b2 := range fn.Blocks {
+					for _, i2 := range b2.Instrs {
+						hp, ok := i2.(*ssa.Call)
+						if !ok || calleeName(hp) != "strings.HasPrefix" || hp.Call.Args[0] != hay {
+							continue
+						}
+						ko, ok := hp.Call.Args[1].(*ssa.Const)
+						if !ok || ko.Value == nil || ko.Value.Kind() != constant.String {
+							continue
+						}
+						opener := constant.StringVal(ko.Value)
+						if !(b2 == b || b2.Dominates(b)) {
+							continue
+						}
+						n++
+						key := fmt.Sprintf("delimiter:%s:%q…%q", FuncName(fn), opener, closer)
+						if overlap(opener, closer) {
+							r.Bad(rule, key, w.Pos(c.Pos()), fmt.Sprintf("the terminator %q is searched in the text that still begins with the opener %q, and the end of the opener is the beginning of the terminator: %q is taken for a complete token and the text behind it for code", closer, opener, opener+closer[1:]))
+						} else {
+							r.Ok(rule, key, w.Pos(c.Pos()), "opener and terminator cannot overlap")
+						}
+					}
+				}
+			}
+		}
+	}
+	r.Analysed["hand_written_delimiter_searches"] = n
+}
